@@ -11,6 +11,13 @@ fn run_one<C: Suite>(ctx: &mut Ctx) {
 
 fn main() {
     let mut ctx = fv::cli::parse();
+    if let Some(p) = fv::cli::prelude_suite() {
+        fn pre<D: Suite>() {
+            fv::cli::prelude::<D>()
+        }
+        with_suite!(p.as_str(), pre,);
+        ctx.note("prelude_suite", serde_json::json!(p));
+    }
     let suite = ctx.suite.clone();
     with_suite!(suite.as_str(), run_one, &mut ctx);
     std::process::exit(ctx.finish());
